@@ -104,6 +104,7 @@ def run(tier="quick", seed=0, replay=None):
         return 1
     core.lean_stage(chk, "C16", extra_props=["C16a"])
     core.soft_stage(chk, ["C16b"], "confidence-bound expression regenerated from base.py = Model/Explainer.lean confBound")
+    core.soft_bridge(chk, props=("GenNormalize",))
     from harness import cover
     from harness import fingerprint
     fingerprint.direct(chk, ['ixai/explainer/base.py'])
@@ -137,7 +138,8 @@ def run(tier="quick", seed=0, replay=None):
         kind = chk.rng.choice(["pfi", "sage"])
         cfg = next(iter(_expl.gen_configs(chk, kind, 1)))
         alpha = chk.rng.choice([Q(1), Q(1, 2), Q(1, 3), Q(1, 1000), Q(999, 1000)])
-        cfg = dict(cfg, d=chk.rng.randint(2, 4), dynamic=True, alpha=alpha, model_kind="scalar", imputer_kind="joint",
+        dyn = chk.rng.random() < 0.65      # the bound is also defined (and computed from the CONFIGURED alpha) in the static setting
+        cfg = dict(cfg, d=chk.rng.randint(2, 4), dynamic=dyn, alpha=alpha, static_alpha=True, model_kind="scalar", imputer_kind="joint",
                    names_kind=chk.rng.choice(["str", "int", "float", "mixed", "intish", "intish"]), loss_kind="arbitrary", n_inner=1)
         rig = _expl.run_stream(chk, cfg, chk.rng.randint(2, 6))
         chk.case({"confidence_bound": True, "config": _expl.cfg_desc(cfg), "first_x": rig.steps[0]["x"]}, nontrivial=True, sample=(i < 1))
@@ -166,6 +168,7 @@ def run(tier="quick", seed=0, replay=None):
                               _expl.replay_payload(rig, cfg, len(rig.steps) - 1))
                 break
             a, t = float(alpha), ex.seen_samples
+            chk.stat("bound_dynamic" if dyn else "bound_static")
             for f in rig.names:
                 v = float(var.get(f, 0)) if var else 0.0
                 want = (1 - a) ** t + math.sqrt(v * a / ((2 - a) * delta))
